@@ -387,7 +387,7 @@ pub fn run(tier: Tier) -> i32 {
     }
 
     // responses longer than 127 octets through the real Framed and driver, every cut position
-    let t_long = crate::e1::explore_all(&rep, vec![crate::e1::scenarios::long_response_bytes("C03")], false);
+    let t_long = crate::e1::explore_all(&rep, crate::e1::scenarios::long_response_bytes("C03"), false);
     let lane_b = lane_b + t_long.transitions;
     let c = cov(vec![
         ("evaluations", json!(lane_a + lane_b)),
